@@ -17,7 +17,8 @@ tvars == <<vars, l>>
 
 IsEv(e) == l <= Len(Log) /\ Log[l].e = e /\ l' = l + 1
 TInit == l = 1 /\ prog = <<>> /\ pi = 0 /\ st = <<>> /\ lastCall = <<0, 0>> /\ lastOut = <<>> /\ lastRet = [ret |-> FALSE, open |-> FALSE] /\ viol = {}
-TProg == /\ IsEv("Prog") /\ pi' = l /\ prog' = Log[l].p /\ st' = InitSt(Log[l].p) /\ lastCall' = <<0, 0>> /\ lastOut' = <<>>
+TProg == /\ IsEv("Prog") /\ DefsLegal(Log[l].p)         \* the machines were defined by a legal order of definition calls
+         /\ pi' = l /\ prog' = Log[l].p /\ st' = InitSt(Log[l].p) /\ lastCall' = <<0, 0>> /\ lastOut' = <<>>
          /\ lastRet' = [ret |-> FALSE, open |-> FALSE] /\ viol' = {}
 TBegin == IsEv("Begin") /\ pi # 0 /\ UNCHANGED vars            \* the call is announced before it is made (replay of crashes)
 TCall == /\ IsEv("Call") /\ pi # 0 /\ Log[l - 1].e = "Begin" /\ Log[l - 1].c = Log[l].c
